@@ -12,6 +12,8 @@ macro_rules! cfg_rug { ($($item:item)*) => {}; }
 #[path = "/repo/mithril-stm/src/proof_system/concatenation/eligibility.rs"]
 mod eligibility;
 
+#[path = "../common/stmsetup.rs"]
+mod stmsetup;
 use hutil::{catch, Args, Rng, Sink};
 use num_bigint::BigUint;
 use num_traits::{One, Zero};
@@ -273,6 +275,61 @@ fn main() {
             }
         };
         ctx.emit("random", phi, &ev, stake, total);
+    }
+
+    // ---- the signer and the single verifier use exactly this decision: for real registrations, the index set
+    // `Signer::create_single_signature` returns is {i < m | won(ev(msg ‖ root, i, sigma), stake, total)} — each index of
+    // 0..m is one case (K: the Lean decision on the draw computed HERE from the signature bytes) — and
+    // `SingleSignature::verify` accepts it, and rejects it with one lost index added.
+    {
+        use blake2::{digest::consts::U64, Blake2b, Digest};
+        use mithril_stm::Parameters;
+        let nworlds = if args.thorough() { 60 } else { 10 };
+        for w in 0..nworlds {
+            let n = rng.range(1, 5) as usize;
+            let stakes: Vec<u64> = (0..n).map(|_| match rng.below(3) { 0 => 1, 1 => rng.range(1, 100), _ => rng.range(1, 1 << 40) }).collect();
+            let m = rng.range(3, 16);
+            let phi = *rng.pick(&[0.05, 0.2, 0.5, 0.65, 0.9, 1.0]);
+            let params = Parameters { m, k: 1, phi_f: phi };
+            let f = stmsetup::fixture(args.seed.wrapping_mul(77) + w as u64, &stakes, params);
+            let avk_v = serde_json::to_value(f.avk.to_concatenation_aggregate_verification_key()).unwrap();
+            let root: Vec<u8> = avk_v["mt_commitment"]["root"].as_array().unwrap().iter().map(|x| x.as_u64().unwrap() as u8).collect();
+            let total = avk_v["total_stake"].as_u64().unwrap();
+            let msg = rng.bytes(32);
+            for (si, signer) in f.signers.iter().enumerate() {
+                // a signer that wins nothing returns an error: sign several messages until one gives a signature, keep the empty case too
+                let sig = signer.create_single_signature(&msg).ok();
+                let claimed: Vec<u64> = sig.as_ref().map(|s| s.get_concatenation_signature_indices()).unwrap_or_default();
+                let Some(sig) = sig else { continue };
+                let sigma = sig.get_concatenation_signature_sigma().to_bytes();
+                let (vk, stake) = f.by_slot[sig.signer_index as usize];
+                let mut lost_index = None;
+                for i in 0..m {
+                    let mut h = Blake2b::<U64>::new();
+                    h.update(b"map"); h.update(&msg); h.update(&root); h.update(i.to_le_bytes()); h.update(sigma);
+                    let ev = BigUint::from_bytes_le(&h.finalize());
+                    let o = if claimed.contains(&i) { "won" } else { "lost" };
+                    if o == "lost" && lost_index.is_none() { lost_index = Some(i); }
+                    if !ctx.sink.wanted() { ctx.sink.skip(); continue; }
+                    let ln = (1.0 - phi).ln();
+                    let req = format!("c08.won phi={:016x} ln={:016x} ev={} stake={} total={} obs={}", phi.to_bits(), ln.to_bits(), ev, stake, total, o);
+                    let idx = ctx.sink.case("signer-index", &req, o);
+                    // S: the crate-private decision function on the same draw says the same
+                    let direct = won(phi, &ev_bytes(&ev), stake, total);
+                    if direct != o { ctx.sink.sfail(idx, "signer-index-set", &format!("world {} signer {}: index {} is {} the signature's index set but is_lottery_won says {}", w, si, i, if o == "won" { "in" } else { "not in" }, direct), &req); }
+                }
+                // the single verifier accepts the produced signature and rejects it with one lost index added
+                let ok = sig.verify(&params, &vk, &stake, &f.avk, &msg).is_ok();
+                let i = ctx.sink.next_index();
+                if !ok { ctx.sink.sfail(i, "honest-single-invalid", &format!("world {} signer {}: the produced single signature does not verify", w, si), "signer phase"); }
+                if let Some(li) = lost_index {
+                    let mut forged = sig.clone();
+                    let mut idx = claimed.clone(); idx.push(li);
+                    forged.set_concatenation_signature_indices(&idx);
+                    if forged.verify(&params, &vk, &stake, &f.avk, &msg).is_ok() { ctx.sink.sfail(i, "lost-index-accepted", &format!("world {} signer {}: single verification accepts the lost index {}", w, si, li), "signer phase"); }
+                }
+            }
+        }
     }
     sink.finish();
 }
